@@ -12,6 +12,7 @@ import gc
 import weakref
 
 from ..core import Violation, HarnessError, stream, sut, exc_name
+from ..core import deep
 from ..sched import Sched
 from .. import graph as G
 from .c08 import expectation, check_calls, describe, show_event
@@ -186,8 +187,8 @@ class Prop:
         c = stream(seed, "config")
         r = stream(seed, "ops")
         er = stream(seed, "env")
-        npool = c.randint(2, 4)
-        nh = c.choice([1, 2, 2, 3])
+        npool = deep(c, [2, 3, 4], [5, 6])
+        nh = deep(c, [1, 2, 2, 3], [4, 5])
         deferred = c.random() < 0.2
         handlers = []
         # swarm: some runs put several handlers on the same *container* in terminal
@@ -209,7 +210,7 @@ class Prop:
                              "expr": expr, "form": "obj" if c.random() < 0.4 else "text",
                              "owner": c.random() < 0.35,
                              "dispatch": "ui" if (deferred and c.random() < 0.6) else "same"})
-        nops = c.choice([4, 8, 12, 18, 24, 30])
+        nops = deep(c, [4, 8, 12, 18, 24, 30], [45, 60])
         nested_rate = c.choice([0.0, 0.1, 0.3, 0.6]) if not shared_container else 0.6
         gc_mode = c.choice(["explicit", "explicit", "explicit", "storm"])
         ops = []
